@@ -8,7 +8,7 @@ META = {
     "level": "model_checking",
     "engine": "afc",
     "technique": "TLA+ spec ShmMutex (one action per atomic access of sys_lock/sys_unlock/futex) model-checked with TLC for MutualExclusion and NoLostWakeup; TLC's state graph is turned into edge-covering schedules that are replayed on the real mutex under the yield-point scheduler (spec->impl conformance), the verdict coming from the critical-section occupancy counter and the lost-wake-up detector",
-    "text": "TLC checks the fine-grained PlusCal model of the futex mutex (CAS fast path, passive spin with the code's count, swap to SLEEPING, futex compare-and-block, swap to UNLOCKED, wake one) for mutual exclusion with and without spurious wake-ups and, under weak fairness without spurious wake-ups, that every locker eventually enters the critical section and all threads finish; a spec-level mutant (wake only when LOCKED was seen) must be rejected. The labelled state graph for 2 threads x 2 rounds and 3 threads x 1 round with PASSIVE_SPIN=5 is dumped, a set of complete paths covering every transition is computed and each path is executed step by step on the real Mutex (yield points before every atomic access, futex wait/wake routed to the scheduler), comparing key word, per-thread site and sleeper set after every step; random complete behaviours of 3 threads x 2 rounds come from TLC simulation. VIOLATION only if two threads are inside the critical section or a thread stays parked in futex_wait when nothing can wake it.",
+    "text": "TLC checks the fine-grained PlusCal model of the futex mutex (CAS fast path, passive spin with the code's count, swap to SLEEPING, futex compare-and-block, swap to UNLOCKED, wake one) for mutual exclusion with and without spurious wake-ups and, under weak fairness without spurious wake-ups, that every locker eventually enters the critical section and all threads finish; a spec-level mutant (wake only when LOCKED was seen) must be rejected. The labelled state graphs for 2 threads x 2 rounds and 3 threads x 1 round with PASSIVE_SPIN=5, and for 3 threads with rounds (2,1,1) and PASSIVE_SPIN=1 (a spinning thread runs through the code's remaining loads within the step) are dumped, together with a targeted schedule family (a thread loses its spin-loop CAS, the lock is released before its next load, it then acquires); a set of complete paths covering every transition is computed and each path is executed step by step on the real Mutex (yield points before every atomic access, futex wait/wake routed to the scheduler), comparing key word, per-thread site and sleeper set after every step; random complete behaviours of 3 threads x 2 rounds come from TLC simulation. VIOLATION only if two threads are inside the critical section or a thread stays parked in futex_wait when nothing can wake it.",
     "note": "Bounds: <=3 threads, <=2 rounds; PASSIVE_SPIN=5 in all replayed schedules and in the 2x2 liveness run; 3x2 design-level runs: safety+liveness with PASSIVE_SPIN=1 (thorough also 2), safety with 5 (thorough). Sequentially consistent interleavings only: weakening an atomic Ordering is not detectable (DESIGN §9). Test threads are coroutines on one OS thread (the scheduler serialises execution anyway). Trusts the yield points to sit before every access of the key word (a missing one shows as drift).",
 }
 
@@ -17,6 +17,48 @@ ACTIONS = ["cas1", "spin", "scas", "swp", "fw", "slp", "cs", "cs2", "unl", "wk"]
 
 def project(a, args, s):
     return {"a": a, "t": args[0], "key": s["key"], "pc": s["pc"], "sl": s["sleepers"], "wk": s["wakeTok"]}
+
+
+def targeted(g):
+    """Schedule family: a thread loses the CAS of its spin loop (the lock was taken in between),
+    the lock is released again before the thread's next load, and the thread then takes it.
+    Edge coverage visits each of these steps but not necessarily in this order on one path."""
+    import pathcover
+    out = []
+    for ei, (src, dst, a, args) in enumerate(g.edges):
+        if a != "scas":
+            continue
+        t = args[0]
+        st = g.state(dst)
+        if st["pc"][t - 1] != "spin" or st["key"] == 0:
+            continue                       # not a failed CAS
+        path = pathcover.prefix_to(g, src) + [ei]
+        cur = dst
+        # let whoever holds the lock finish its critical section and unlock
+        for _ in range(12):
+            s2 = g.state(cur)
+            if s2["key"] == 0:
+                break
+            nxt = [e for e in g.out[cur] if g.edges[e][3] and g.edges[e][3][0] != t
+                   and g.edges[e][2] in ("cs", "cs2", "unl")]
+            if not nxt:
+                break
+            path.append(nxt[0])
+            cur = g.edges[nxt[0]][1]
+        if g.state(cur)["key"] != 0:
+            continue
+        # the thread's next load sees the free lock, its CAS succeeds
+        ok = True
+        for want in ("spin", "scas"):
+            nxt = [e for e in g.out[cur] if g.edges[e][2] == want and g.edges[e][3][0] == t]
+            if not nxt:
+                ok = False
+                break
+            path.append(nxt[0])
+            cur = g.edges[nxt[0]][1]
+        if ok:
+            out.append(path + pathcover.complete(g, cur))
+    return out
 
 
 def run(ctx):
@@ -43,20 +85,25 @@ def run(ctx):
     total = 0
     results = []
     cover_info = {}
-    for gcfg, rounds, cap in (("MC_ShmMutex_g2.cfg", 2, None), ("MC_ShmMutex_g3.cfg", 1, 5000)):
-        info, steps = afc_util.schedules(ctx, "ShmMutex", gcfg, project, timeout=1200)
+    for gcfg, rounds, cap in (("MC_ShmMutex_g2.cfg", [2, 2], None), ("MC_ShmMutex_g3.cfg", [1, 1, 1], 4000),
+                              ("MC_ShmMutex_g4.cfg", [2, 1, 1], 2500)):
+        info, steps = afc_util.schedules(ctx, "ShmMutex", gcfg, project, timeout=1200, targeted=targeted)
         afc_util.require_graph_actions(info, ACTIONS)
         n = len(info["init"]["pc"])
-        beh = [{"threads": n, "rounds": rounds, "steps": st} for st in steps]
+        # PASSIVE_SPIN = 1 graphs: the engine runs a spinning thread through the code's further loads
+        macro = afc_util.cfg_constants(gcfg)["PassiveSpin"] != "5"
+        beh = [{"threads": n, "rounds": rounds, "spin_macro": macro, "steps": st} for st in steps]
         npaths = len(beh)
-        if cap and not ctx.thorough and npaths > cap:
-            beh = verif.sample(ctx.rng, beh, cap)
+        ntarget = info.get("targeted_paths", 0)
+        if cap and not ctx.thorough and npaths - ntarget > cap:
+            # the targeted family is always replayed completely
+            beh = verif.sample(ctx.rng, beh[:npaths - ntarget], cap) + beh[npaths - ntarget:]
         res = afc_util.replay(ctx, vh, "mutex", beh, tag="mutex-" + gcfg[11:-4])
         ctx.absorb(res)
         results += res
         total += len(beh)
-        cover_info[gcfg] = {"states": info["states"], "transitions": info["transitions"], "cover_paths": npaths,
-                            "replayed": len(beh)}
+        cover_info[gcfg] = {"states": info["states"], "transitions": info["transitions"],
+                            "cover_paths": npaths - ntarget, "targeted_paths": ntarget, "replayed": len(beh)}
         if gcfg.endswith("g2.cfg"):
             g2beh = beh
     # 4. random complete behaviours of 3 threads x 2 rounds (simulation mode)
